@@ -730,6 +730,10 @@ class BrownianInterval(brownian_base.BaseBrownian, _Interval):
                     stack.append(interval._right_child)
                     stack.append(interval._left_child)
 
+        # The tree built here only speeds up the search; queries split the bottom pieces further as they come. So never
+        # create more than 2**15 pieces up front, however small the (average) step: otherwise a run of very short queries,
+        # or a tiny `dt`, makes this call allocate without bound.
+        piece_length = max(piece_length, (self._end - self._start) / 2 ** 15)
         _set_points(self)
 
     def __repr__(self):
